@@ -12,7 +12,7 @@ PRESENT_PROOF = """proof {
 UNIT = Unit(
     name="confirm",
     prelude=["core.rs", "raw.rs", "iter.rs", "crypto.rs", "state_abs.rs"],
-    lemmas=["sums.rs", "coinsview.rs", "stakes.rs", "confirm.rs", "header.rs"],
+    lemmas=["sums.rs", "coinsview.rs", "stakes.rs", "confirm.rs", "tips.rs", "header.rs", "seal_opaque.rs"],
     items=[
         TypeItem(S, "struct", "UnsealedState"),
         TypeItem(S, "struct", "SealedState", subst=[("(UnsealedState<C>, Option<ProposerAction>)", "(pub UnsealedState<C>, pub Option<ProposerAction>)")]),
